@@ -250,7 +250,9 @@ class Inference:
                 return None
             if e.attr == "name" and (ast.unparse(e.value).endswith("type_") or self._enum_typed(e.value, fi)):
                 return None  # enum member names are identifiers
-            if e.attr in ("value", "query", "message") and isinstance(e.value, ast.Name) and not any(
+            if e.attr == "message":
+                return None  # a token's message is whatever Token(..., message) was built with: checked at those sites
+            if e.attr in ("value", "query") and isinstance(e.value, ast.Name) and not any(
                 isinstance(n, (ast.Assign, ast.AnnAssign)) and any(isinstance(t, ast.Name) and t.id == e.value.id for t in (n.targets if isinstance(n, ast.Assign) else [n.target])) for n in walk_own(fi.node)
             ):
                 # attribute of a parameter: decided where the argument comes from
@@ -261,7 +263,7 @@ class Inference:
                         if p:
                             return p
                     return None
-            if e.attr in ("value", "query", "message"):
+            if e.attr in ("value", "query"):
                 return f"tainted: {text} is text of the query and is interpolated without repr(): it may contain a line break"
             return f"unknown: {text}"
         if isinstance(e, ast.Subscript):
@@ -447,9 +449,13 @@ def check_constructed_messages(model: Model, report: Report, rule: str, skip: Se
             fname = ast.unparse(n.func)
             is_err = fname.split(".")[-1] in inf.errs
             is_lex_error = isinstance(n.func, ast.Attribute) and n.func.attr == "error" and fi.module.short == "lex"
-            if not (is_err or is_lex_error):
+            is_token = fname.split(".")[-1] == "Token" and (len(n.args) >= 5 or any(k.arg == "message" for k in n.keywords))
+            if not (is_err or is_lex_error or is_token):
                 continue
-            msg = n.args[0] if n.args else next((k.value for k in n.keywords if k.arg in ("msg", "message")), None)
+            if is_token:
+                msg = n.args[4] if len(n.args) >= 5 else next(k.value for k in n.keywords if k.arg == "message")
+            else:
+                msg = n.args[0] if n.args else next((k.value for k in n.keywords if k.arg in ("msg", "message")), None)
             if msg is None:
                 continue
             n_sites += 1
